@@ -57,7 +57,7 @@ def map_scenario(sc):
     pump_closed = set(); pump_done = set(); pubclose_seen = set()
     pump_holds = {}; delivered_early = set()
     rh_ids = []; g2r = {}
-    outcomes = {}; failed_msgs = set()
+    outcomes = {}; failed_msgs = set(); self_ended = set(); close_called = set()
     # a NEGATIVE observation (the poll of routersCloseCh saw it open) is stamped after the fact and can be overtaken by
     # the close and its observers: its model step is placed as early as the log allows = right after the same goroutine's
     # preceding stamp (ctx_done)
@@ -117,11 +117,16 @@ def map_scenario(sc):
         elif p == 'api.quiescent':
             H.append(('AQuiescent', e))
         elif p == 'api.sub.close_called':
+            close_called.add(hno(k[0]))
             lab('LHc %d' % hno(k[0])); H.append(('ASubClose %d' % hno(k[0]), e))
         elif p == 'api.sub.chan_close':
-            lab('LChanClose %d' % hno(k[0]))
-        elif p == 'api.pub.close':
-            H.append(('APubClose %d' % hno(k[0]), e))
+            h = hno(k[0])
+            # the subscription ended by itself (environment), unless Close() had been called on the subscriber before
+            lab(('LSubEnd %d' if (h in self_ended and h not in close_called) else 'LChanClose %d') % h)
+        elif p == 'api.pub.close_done':
+            H.append(('APubClose %d' % hno(k[0]), e))           # the publisher's Close() has returned
+        elif p == 'api.sub.self_end':
+            self_ended.add(hno(k[0])); H.append(('ASubEnd %d' % hno(k[0]), e))   # classification marker
         elif p == 'api.handler.start':
             x = m_of(k[1])
             if x is not None: lab('LMsg %d' % x); H.append(('AStart %d' % x, e))
@@ -245,11 +250,12 @@ VNAME = {1: 'a handler started after a Close call had returned nil',
          8: 'after the Run context had been cancelled before Close, Close times out with nothing in the pipeline (subscriber ignores its context and is never closed)',
          11: 'a message was settled after a Close call had returned nil',
          12: 'Close returned nil although a handler was in progress when Run returned',
-         14: 'a Close call after a timed-out one returned nil while handlers still run'}
+         14: 'a Close call after a timed-out one returned nil while handlers still run',
+         16: 'a Close call returned nil while a handler\'s publisher was not closed (its Close() had not completed or not been called)'}
 SIG = {1: 'C06/handler-starts-after-nil-close(D5)', 2: 'C06/nil-close-while-handler-in-progress', 3: 'C06/settled-without-handling',
        4: 'C06/subscriber-not-closed(D6)', 5: 'C06/publisher-not-closed', 6: 'C06/close-timeout-with-empty-pipeline(D6)',
        7: 'C06/subscriber-not-closed-after-ctx-cancel', 8: 'C06/subscriber-not-closed-after-ctx-cancel',
-       11: 'C06/settled-after-nil-close', 12: 'C06/run-returned-while-handler-in-progress', 14: 'C06/second-close-nil-after-timeout(D12)'}
+       11: 'C06/settled-after-nil-close', 16: 'C06/nil-close-before-publisher-closed', 12: 'C06/run-returned-while-handler-in-progress', 14: 'C06/second-close-nil-after-timeout(D12)'}
 
 def readable(sc, mp, upto=None):
     evs = [dict(seq=(e or {}).get('seq'), event=t, hook=(e or {}).get('p'), keys=(e or {}).get('k')) for t, e in mp.hist]
